@@ -8,36 +8,56 @@ EXTRACTION = ("extraction: the verified text is the function's AST re-read from 
 
 C03_ASSUME = [REALS, EXTRACTION]
 
+PM_MODULES = ["pm_bounds", "pm_matryoshka"]
+PM_BOUNDS = [
+    f"{PM}._bounds:check_exclusion_bounds_overlap",
+    f"{PM}._bounds:adjust_exclusion_bounds",
+    f"{PM}._bounds:clamp_to_bounds",
+]
+MAT = f"{PM}._matryoshka:Matryoshka"
+
 PROPS = {
     "C03": dict(
-        modules=["pm_bounds", "pm_matryoshka"],
-        contracts=[
-            f"{PM}._bounds:check_exclusion_bounds_overlap",
-            f"{PM}._bounds:adjust_exclusion_bounds",
-            f"{PM}._bounds:clamp_to_bounds",
-            f"{PM}._matryoshka:Matryoshka._calc_target_power",
+        modules=PM_MODULES,
+        contracts=PM_BOUNDS + [
+            f"{MAT}._calc_target_power",
+            f"{MAT}.calculate_target_power",
+            f"{MAT}.get_target_power",
         ],
-        lemmas=[],
-        bounded=[],
+        lemmas=["proposal_eq_is_key_equality", "proposal_lt_strict_total_order_on_keys"],
+        bounded=[dict(kind="contract_search", name="drop_old_proposals (expiry)", target=f"{MAT}.drop_old_proposals",
+                      contract_module="contracts.pm_matryoshka", budget_s=8, thorough_budget_s=60)],
         level="proof",
-        explanation="Contracts on the real functions, discharged per function (callers use callee contracts) by a "
-                    "VC generator over the source AST with z3; loops by inductive invariants.",
-        assumptions=[REALS, EXTRACTION],
+        explanation="Envelope: contracts on the three _bounds functions and an inductive invariant for the priority sweep "
+                    "(any number of proposals). History-freedom: _calc_target_power is proved pure (frame) and "
+                    "calculate_target_power is proved to keep bucket' = (bucket minus same-key) + proposal (sets of "
+                    "proposals modelled as finite maps keyed by (priority, source_id), justified by a lemma about the "
+                    "real __eq__), to store exactly the callee's value, and to leave other groups alone; __lt__ is proved "
+                    "a strict total order on keys, so the descending order swept is unique. Expiry "
+                    "(drop_old_proposals) is only a bounded stand-in.",
+        assumptions=[REALS, EXTRACTION,
+                     "assume: a strictly ordered arrangement of a finite set under a strict total order is unique "
+                     "(mathematical fact, not re-proved); with the proved purity of _calc_target_power this gives "
+                     "'the target is a function of the set of live proposals'"],
     ),
     "C04": dict(
-        modules=["pm_bounds", "pm_matryoshka"],
-        contracts=[
-            f"{PM}._bounds:check_exclusion_bounds_overlap",
-            f"{PM}._bounds:adjust_exclusion_bounds",
-            f"{PM}._bounds:clamp_to_bounds",
-            f"{PM}._matryoshka:Matryoshka._calc_target_power#c04",
+        modules=PM_MODULES,
+        contracts=PM_BOUNDS + [
+            f"{MAT}._calc_target_power#c04",
+            f"{MAT}.get_status",
+            f"{MAT}.get_status#c04",
+            f"{PM}._base_classes:_Report.adjust_to_bounds",
         ],
-        lemmas=[],
+        lemmas=["proposal_lt_strict_total_order_on_keys"],
         bounded=[],
         level="proof",
-        explanation="Ghost recurrences G (running bounds) and T (running target) written from the property statement; "
-                    "both sweeps are proved to compute them (loop invariants), so what an actor is told equals what the "
-                    "manager then does.",
-        assumptions=[REALS, EXTRACTION],
+        explanation="Ghost recurrences written from the property statement - G (running range: intersect with each higher "
+                    "priority's bounds, carve the exclusion zone) and T (running target: nearest usable value to the latest "
+                    "stated preference) - are proved to be what BOTH sweeps compute (loop invariants over any number of "
+                    "proposals): _calc_target_power returns T(n), get_status(priority) reports exactly G(k) for k = number "
+                    "of strictly higher proposals, and adjust_to_bounds is clamp_to_bounds on that range.",
+        assumptions=[REALS, EXTRACTION,
+                     "regime: proved for conflict-free proposal sets (C04's quantifier) with the exclusion zone inside "
+                     "the inclusion range (documented SystemBounds invariant)"],
     ),
 }
